@@ -435,7 +435,13 @@ def evaluate(case, prog=None, parser=None, texts=None):
                 continue
             seen.add((oracle, tag))
             n = sum(1 for k in a1 if k not in a0 and k[1:3] == (oracle, tag))
-            res['failures'].append((f'{ID}:{oracle}:{label}:{tag}', f'{xf_text(case)}: {a1[key]} ({n} symbol name(s) affected)'))
+            lab = label
+            if oracle == 'scope' and tag == 'other-unit' and 'TypeboundProcedureCallTransformation' in label \
+                    and 'ProcedureSymbol' in str(a1[key]):
+                # one root cause whatever runs after it in the pipeline: the rewritten type-bound call re-uses the
+                # ProcedureSymbol that is scoped in the module defining the type
+                lab = 'TypeboundProcedureCallTransformation'
+            res['failures'].append((f'{ID}:{oracle}:{lab}:{tag}', f'{xf_text(case)}: {a1[key]} ({n} symbol name(s) affected)'))
         # ---- fgen
         try:
             out = [(n, (sf.to_fortran() + '\n') if sf is not None else t) for sf, (n, t) in zip(ap.sfs, texts)]
